@@ -64,6 +64,13 @@ CHECKS["C09"] = dict(
     design_ref="3/C09",
 )
 
+CHECKS["C05"] = dict(
+    technique="small-scope exhaustion of all k^n labelings on all small graphs/grids (projection through an independent solver) against the definition, plus Hypothesis-generated end-to-end cases over label forms",
+    text="For every labelled simple graph on <=4 vertices (thorough: a derived quarter of the 5-vertex graphs too), grid shapes with h*w <= 6 (8), num_regions 1..3, allow_empty_group on/off, roots absent or a derived list with None holes (vertex ids / (y,x)), both encodings, ALL k^n labelings are decided on the posted program and compared with: classes connected, every label used unless empty groups allowed, roots respected. End-to-end cases supply the labels as pinned IntArray1D/2D, arrays of expressions, lists of IntExpr and lists of Python ints, solved on z3 / the cspuz_core stand-in. Exhaustive within the scope.",
+    note="Trusted base: vlib/graphref, vlib/refz3 (CEGAR for the native atoms). Label domains exactly 0..k-1. 8/8 sensitivity mutants caught; two design-list mutants are equivalent w.r.t. the property and were dropped. Found and fixed the list-labels defect of the native branch.",
+    design_ref="3/C05",
+)
+
 NOT_BUILT_REASON = "check not built yet in this session (planned in DESIGN.md section 3); not claimed until it runs quietly and is mutation-tested"
 
 def main():
